@@ -392,7 +392,7 @@ func c14(c *core.Ctx, r *core.Report) {
 	ro := c.Roles()
 	r.Explanation = "C14 Close: the WaitGroup fan-out protocol is decided on all paths of App.Close's closer loop: (R1) Add(len(S)) before a forward range over the same S, exactly one go per iteration, no early loop exit; (R2) the goroutine body calls Close exactly once on the element it received as a parameter (go.mod says go 1.20: loop variables are shared), Done deferred at entry; (R3) Wait post-dominates the loop; (R4) no panic/exit-class call or early exit depends on a Close error; (R5) the closer collection is wired by type; (R6) the fan-out is conditional on nothing but the closer list being non-empty; (R9) nothing in scope calls the closing routine itself unless it is idempotent by a closed flag. A plain sequential loop is the other accepted idiom. Decides wait-for-all, exactly-once and isolation structurally; not what a closer does."
 	r.Assumptions = []string{"sync.WaitGroup semantics", "closers do not panic (a panic in a goroutine terminates the process)"}
-	sites := c.CallSites(func(com *ssa.CallCommon) bool { return core.IsInvoke(com, ro.CloserClose) })
+	sites := notForwarders(c, c.CallSites(func(com *ssa.CallCommon) bool { return core.IsInvoke(com, ro.CloserClose) }), c.Iface("definition", "CloserComponent"), "Close")
 	r.Count("close_invoke_sites", len(sites))
 	if !r.Exactly("C14.R2", "invoke sites of CloserComponent.Close", len(sites), 1) {
 		return
